@@ -101,6 +101,52 @@ let res_loc r = match r with Ok x -> "ok " ^ show_loc x | Err _ -> "err"
 let res_locs r = match r with Ok x -> "ok " ^ show_locs x | Err _ -> "err"
 
 (* returns (result string, new cache, number of PD calls used) *)
+(* ---- the real sender's effect on the cache, explained as a composition of model operations ----
+   after RegionRequestSender.SendReqCtx the implementation's dump must be reachable from the model state by:
+   OnRegionEpochNotMatch with the returned current regions (if that was the final region error), bumps of store fail-epochs,
+   and per entry: a switch of the work peer (switchWorkLeaderToPeer = switch_work, or plain set_work), reload flags,
+   an invalidation (invalidate_r with the reason found). Everything else is unexplained = a mismatch. *)
+let sender_prims : (string, int) Hashtbl.t = Hashtbl.create 16
+let explain (c : cache) (res : string) (target : cache) : (cache * string list) option =
+  let prims = ref [] in
+  let note p = prims := p :: !prims in
+  let c0 = match split_on ' ' res with
+    | "ok" :: "regionerr" :: "epochnotmatch" :: ctx :: cur :: _ when ctx <> "-" ->
+        (match split_on '@' ctx with
+         | [v; st] -> (match on_epoch_not_match c (parse_verid v) (nn (int_of_string st)) (parse_descs cur) with
+                       | Ok (_, c') -> note "on_epoch_not_match"; c' | Err _ -> c)
+         | _ -> c)
+    | _ -> c in
+  if c0.c_tomb <> target.c_tomb || List.length c0.c_sorted <> List.length target.c_sorted then None else
+  let ep l st = store_epoch l st in
+  let stores = List.sort_uniq compare (List.map fst c0.c_sepochs @ List.map fst target.c_sepochs) in
+  let bumps_ok = List.for_all (fun st -> ni (ep target.c_sepochs st) >= ni (ep c0.c_sepochs st)) stores in
+  if not bumps_ok then None else begin
+    List.iter (fun st -> if ep target.c_sepochs st <> ep c0.c_sepochs st then note "store_epoch_bump") stores;
+    let fix_entry se (m : region) (t : region) : (region * string list) option =
+      let cands_work = if m.r_work = t.r_work then [ (m, []) ]
+                       else [ (switch_work se t.r_work m, ["switch_work"]); (set_work t.r_work m, ["set_work"]) ] in
+      let rec first = function
+        | [] -> None
+        | (m1, p1) :: rest ->
+            let (m2, p2) = if (t.r_reload && not m1.r_reload) || (t.r_pending && not m1.r_pending)
+              then (set_flags (fun x -> x.r_reload || t.r_reload) (fun x -> x.r_pending || t.r_pending) (fun x -> x.r_ready) m1, ["set_flags"]) else (m1, []) in
+            let (m3, p3) = if t.r_reason <> m2.r_reason then (invalidate_r t.r_reason m2, ["invalidate"]) else (m2, []) in
+            if m3 = t then Some (m3, p1 @ p2 @ p3) else first rest in
+      first cands_work in
+    let try_with se =
+      let ok = ref true and ps = ref [] in
+      List.iter2 (fun m t -> match fix_entry se m t with
+                    | Some (_, p) -> ps := p @ !ps | None -> ok := false) c0.c_sorted target.c_sorted;
+      if !ok then Some !ps else None in
+    let same_frame = (c0.c_regions = target.c_regions || List.sort compare c0.c_regions = List.sort compare target.c_regions)
+                     && List.sort compare c0.c_latest = List.sort compare target.c_latest in
+    if not same_frame then None else
+    match (match try_with target.c_sepochs with Some p -> Some p | None -> try_with c0.c_sepochs) with
+    | Some p -> List.iter note p; Some (target, !prims)
+    | None -> None
+  end
+
 let txn_mode = ref false
 let run_op (c : cache) (op : string) (args : string list) (qs : string list array) =
   let pd = (if !txn_mode then codec_pd (make_pd qs) else make_pd qs) and budget = nat (Array.length qs) and t0 = O in
@@ -251,6 +297,16 @@ let () =
              incr cases;
              let qarr = Array.of_list (List.rev !qs) in
              let (mres, c1, used) =
+               if op = "send" then begin
+                 (try
+                    let target = parse_dump ents regs lat ses tbs in
+                    (match explain !cache !result target with
+                     | Some (c1, prims) ->
+                         List.iter (fun p -> Hashtbl.replace sender_prims p (1 + (try Hashtbl.find sender_prims p with Not_found -> 0))) prims;
+                         (!result, c1, 0)
+                     | None -> ("model: the sender's effect on the cache is not a composition of the modelled cache operations", !cache, 0))
+                  with e -> ("model-exception " ^ Printexc.to_string e, !cache, 0))
+               end else
                (try run_op !cache op args qarr with
                 | Pd_mismatch m -> ("model: " ^ m, !cache, Array.length qarr)
                 | Parse m -> ("model: parse " ^ m, !cache, Array.length qarr)
@@ -270,4 +326,5 @@ let () =
              cur_op := None)
     | _ -> ());
   Printf.printf "STATS\tcases=%d\tmismatches=%d\tseqs=%d\tbadseqs=%d\treplies=%d\n" !cases !mism !seqs !badseq !replies;
-  Hashtbl.iter (fun k v -> Printf.printf "COUNT\t%s\t%d\n" k v) counts
+  Hashtbl.iter (fun k v -> Printf.printf "COUNT\t%s\t%d\n" k v) counts;
+  Hashtbl.iter (fun k v -> Printf.printf "SENDERPRIM\t%s\t%d\n" k v) sender_prims
